@@ -150,6 +150,14 @@ func (g *c18Gen) stmts(depth int, vis []string) []*mj.Node {
 		switch kind {
 		case 0, 1:
 			g.labels["api-let"] = true
+			if g.n(0, 5, "letReflectValue") == 0 {
+				// the value bound is a reflect.Value (a struct like any other): what is bound is that struct, as with :=
+				g.p.Vars["rv"] = mj.Recipe{T: "reflect-value"}
+				out = append(out, api("apiLet", mj.Str(name), mj.Var("rv")), mj.Text("(fields of what "+name+" holds:"), mj.Print(mj.Call("len", mj.Var(name))), mj.Text(")"))
+				g.labels["api-binds-a-reflect.Value"] = true
+				vis = with(vis, name)
+				continue
+			}
 			out = append(out, api("apiLet", mj.Str(name), g.val()))
 			vis = with(vis, name)
 		case 2:
@@ -208,12 +216,12 @@ func (g *c18Gen) stmts(depth int, vis []string) []*mj.Node {
 					nm := []string{"nilu", "nomap", "noxs"}[g.n(0, 2, "yctxNilKind")]
 					g.p.Vars[nm] = mj.Recipe{T: map[string]string{"nilu": "nil*user", "nomap": "nilmap", "noxs": "nil[]int"}[nm]}
 					g.labels["api-yieldblock-with-typed-nil-context"] = true
-					out = append(out, api("apiYield", mj.Str("shared"), mj.Var(nm)))
+					out = append(out, api("apiYield", mj.Str(g.yieldable()), mj.Var(nm)))
 				} else {
-					out = append(out, api("apiYield", mj.Str("shared"), mj.Str(g.id("yctx"))))
+					out = append(out, api("apiYield", mj.Str(g.yieldable()), mj.Str(g.id("yctx"))))
 				}
 			} else {
-				out = append(out, api("apiYield", mj.Str("shared")))
+				out = append(out, api("apiYield", mj.Str(g.yieldable())))
 			}
 		case 9:
 			g.nglob++
@@ -311,6 +319,16 @@ func c18Twin(ns []*mj.Node) []*mj.Node {
 	return out
 }
 
+// yieldable: the block a Go helper yields - the one of the template itself (all parameters have defaults) or the
+// imported one with a parameter that has none
+func (g *c18Gen) yieldable() string {
+	if g.n(0, 2, "yieldBare") == 0 {
+		g.labels["api-yieldblock-of-a-block-with-a-default-less-parameter"] = true
+		return "bare"
+	}
+	return "shared"
+}
+
 func genC18(t *rapid.T) c18Case {
 	if rapid.IntRange(0, 4).Draw(t, "kind") == 0 {
 		return genC18Args(t)
@@ -319,8 +337,11 @@ func genC18(t *rapid.T) c18Case {
 	g.p = &mj.Program{Entry: "/main.jet", Vars: map[string]mj.Recipe{"ev": mj.RStr("EV0")}, Globals: map[string]mj.Recipe{"gset": mj.RStr("GSET")}}
 	d := mj.RStr("CTX")
 	g.p.Data = &d
-	main := &mj.File{Path: "/main.jet"}
-	g.p.Files = []*mj.File{main}
+	main := &mj.File{Path: "/main.jet", Imports: []string{"/lib18.jet"}}
+	// (an imported block with a parameter that has no default: a yield that leaves it out binds it to false, from Go
+	// code as from a template)
+	lib18 := &mj.File{Path: "/lib18.jet", Body: []*mj.Node{{K: "block", Name: "bare", Params: []mj.Param{{Name: "label"}, {Name: "color", E: mj.Str("grey")}}, Body: []*mj.Node{mj.Text("{bare .="), mj.Print(mj.Dot()), mj.Text(" label="), mj.Print(mj.Var("label")), mj.Text(" color="), mj.Print(mj.Var("color")), mj.Text("}")}}}}
+	g.p.Files = []*mj.File{main, lib18}
 	// (a block with a parameter: yielded from Go code it gets its default like everywhere else)
 	body := []*mj.Node{mj.Text("<"), {K: "block", Name: "shared", Params: []mj.Param{{Name: "sp", E: mj.Str("sp-default")}}, Body: []*mj.Node{mj.Text("{shared .="), mj.Print(mj.Dot()), mj.Text(" sp="), mj.Print(mj.Var("sp")), mj.Text("}")}}}
 	vis0 := []string{"ev"}
@@ -655,7 +676,7 @@ func judgeC18Args(c c18Case) (v core.Verdict) {
 
 func TestC18(t *testing.T) {
 	core.Run(t, "C18",
-		"(a) programs that drive Runtime.Let / Set / SetOrLet / LetGlobal / Resolve / Context / YieldBlock (contexts: strings, nil pointer, nil map, nil slice) through custom functions (also with Execute given no VarMap, SetOrLet on names that are only globals / built-ins, a yielded block with a defaulted parameter), interleaved with template-level := and = and nested (depth<=4) in if / range (both context modes) / block (with context) / include (with context); oracle = the syntax twin (API statements replaced by the syntax they mirror) rendered by the engine, and the MiniJet reference interpreter with API mirror functions; (b) Arguments.Get / NumOfArguments / ParseInto (into *interface{} targets, and numbers - literals, variables, direct results of interface{}-returning functions - into *int / *float64 / *int64 / *reflect.Value) versus a reflected variadic function for plain, piped and slot-placed argument shapes, IsSet on defined / undefined / nil identifiers, an argument that counts its evaluations; non-trivial = an API call at depth>=2, YieldBlock with a context, SetOrLet, or a piped/slot shape",
+		"(a) programs that drive Runtime.Let / Set / SetOrLet / LetGlobal / Resolve / Context / YieldBlock (contexts: strings, nil pointer, nil map, nil slice) through custom functions (also with Execute given no VarMap, SetOrLet on names that are only globals / built-ins, a yielded block with a defaulted parameter), interleaved with template-level := and = and nested (depth<=4) in if / range (both context modes) / block (with context) / include (with context); round 10: Runtime.YieldBlock on an imported block with a parameter that has no default; a reflect.Value bound through Let; oracle = the syntax twin (API statements replaced by the syntax they mirror) rendered by the engine, and the MiniJet reference interpreter with API mirror functions; (b) Arguments.Get / NumOfArguments / ParseInto (into *interface{} targets, and numbers - literals, variables, direct results of interface{}-returning functions - into *int / *float64 / *int64 / *reflect.Value) versus a reflected variadic function for plain, piped and slot-placed argument shapes, IsSet on defined / undefined / nil identifiers, an argument that counts its evaluations; non-trivial = an API call at depth>=2, YieldBlock with a context, SetOrLet, or a piped/slot shape",
 		genC18, judgeC18)
 }
 
